@@ -90,9 +90,11 @@ const noHashID = 999998
 
 func quiet() { log.SetLogLevel("crit") }
 
-// stopMiner waits for the consensus module's answer: an unacknowledged stop can get lost on a
-// loaded machine, and a solo miner that is still running turns the transactions of
-// disconnected blocks into blocks of its own.
+// The nodes are configured with minerstart=false, so the solo miner never passes its IsMining
+// test (a miner stopped after the start may already be past that test, and then turns the
+// transactions of a block that is disconnected in the next milliseconds into a block of its
+// own, written with sequence -1).  stopMiner is kept as a second line: it waits for the
+// consensus module's answer (an unacknowledged stop can get lost on a loaded machine).
 func stopMiner(m *testnode.Chain33Mock) {
 	cl := m.GetClient()
 	for try := 0; try < 5; try++ {
@@ -154,6 +156,7 @@ func newNode(leveldb, record bool) *testnode.Chain33Mock {
 		mc.Wallet.Driver = "memdb"
 	}
 	mc.BlockChain.IsRecordBlockSequence = record
+	mc.Consensus.Minerstart = false // see stopMiner
 	if !record {
 		mc.BlockChain.EnablePushSubscribe = false
 	}
